@@ -43,6 +43,10 @@ func (mux *ServeMux) match(q string, t uint16) Handler {
 			if t != TypeDS {
 				return h
 			}
+			if off > 0 {
+				// The closest zone above the question name: the parent that holds the DS.
+				return h
+			}
 			// Continue for DS to see if we have a parent too, if so delegate to the parent
 			handler = h
 		}
